@@ -679,6 +679,36 @@ theorem peekKw_ident (kw s : String) (r : List K) :
 theorem stopAttrs_ident (inner : Bool) (s : String) (r : List K) :
     StopAttrs inner (.ident s :: r) := by simp [StopAttrs]
 
+theorem pTypeBody_semi (ss : List G.Stmt) (h : ss = []) :
+    Print.pTypeBody true ss = [.punct ';' false] := by
+  subst h; rfl
+
+theorem pTypeBody_brace (tr : Bool) (ss : List G.Stmt) (h : (tr && ss.isEmpty) = false) :
+    Print.pTypeBody tr ss = Print.pGroup .brace (Print.pStmt tr) ',' tr ss := by
+  simp only [Print.pTypeBody, h, Bool.false_eq_true, if_false]
+
+/-- both spellings of the body of a type definition: `;` and `{ … }` -/
+theorem pTypeDef_print (tr : Bool) (ss : List G.Stmt) (attrs : List G.Attr)
+    (h : ss.all stmtOk = true) (rest : List K) (f : Nat)
+    (hf : (Print.pTypeBody tr ss).length < f) (u : Option Nat) :
+    Parse.pTypeDef f attrs (Print.pTypeBody tr ss ++ rest) u
+      = .ok ({ stmts := ss, attrs }, rest, u) := by
+  cases hb : (tr && ss.isEmpty) with
+  | true =>
+    simp only [Bool.and_eq_true, List.isEmpty_iff] at hb
+    obtain ⟨rfl, rfl⟩ := hb
+    simp [Print.pTypeBody, Parse.pTypeDef, Parse.peekPunct]
+  | false =>
+    rw [pTypeBody_brace tr ss hb] at hf ⊢
+    have hS := pStmts_print tr ss h rest f hf u
+    have hp : Parse.peekPunct ';' (Print.pGroup .brace (Print.pStmt tr) ',' tr ss ++ rest) = none := by
+      simp [Print.pGroup, Parse.peekPunct]
+    simp only [Parse.pTypeDef, hp, hS]
+
+theorem starts_pTypeBody (tr : Bool) (ss : List G.Stmt) : Starts (Print.pTypeBody tr ss) := by
+  simp only [Print.pTypeBody]
+  split <;> simp [Print.pGroup, Starts]
+
 theorem pItemDef_print (tr : Bool) (i : G.Item) (h : itemOk i = true) (rest : List K) (f : Nat)
     (hf : (Print.pItemDef tr i).length < f) (u : Option Nat) :
     Parse.pItem f (Print.pItemDef tr i ++ rest) u = .ok (.defn i, rest, u) := by
@@ -691,7 +721,7 @@ theorem pItemDef_print (tr : Bool) (i : G.Item) (h : itemOk i = true) (rest : Li
     simp only [innerOk, Bool.and_eq_true] at hi
     simp only [Print.pItemDef, List.length_append, List.length_cons] at hf
     have hA := fun tail hs => pAttrs_print false tr attrs hi.1 tail hs f (by omega)
-    have hS := pStmts_print tr stmts hi.2 rest f (by omega) u
+    have hS := pTypeDef_print tr stmts attrs hi.2 rest f (by omega) u
     simp only [Print.pItemDef, List.append_assoc, List.cons_append]
     simp only [Parse.pItem, peekKw_attrs_vis "use" tr attrs vis "type" _ (by decide) (by decide),
       peekKw_attrs_vis "backend" tr attrs vis "type" _ (by decide) (by decide)]
@@ -699,10 +729,8 @@ theorem pItemDef_print (tr : Bool) (i : G.Item) (h : itemOk i = true) (rest : Li
     simp only [Parse.pAttrItem, peekKw_vis "extern" vis "type" _ (by decide) (by decide),
       peekKw_vis "impl" vis "type" _ (by decide) (by decide), Option.bind_none,
       pVis_print vis _ (show NoPub (.ident "type" :: _) by simp [NoPub]),
-      Parse.pVisItem, Parse.pItemDef, peekKw_ident, if_true, pIdent_name hn,
-      Parse.pTypeDef, Print.pGroup, Parse.peekPunct, List.cons_append]
-    simp only [Print.pGroup, List.cons_append, List.append_assoc, List.nil_append] at hS
-    simp [hS]
+      Parse.pVisItem, Parse.pItemDef, peekKw_ident, if_true, pIdent_name hn, hS]
+    simp
   | enum d =>
     obtain ⟨ty, stmts, attrs⟩ := d
     simp only [innerOk, Bool.and_eq_true] at hi
